@@ -302,6 +302,8 @@ class FFCDHKey:
             raise ValueError(f"Failed to unpack {cls.__name__} as magic identifier is invalid")
 
         key_length = int.from_bytes(view[4:8], byteorder="little")
+        if len(view) < 8 + (key_length * 3):
+            raise ValueError(f"Failed to unpack {cls.__name__} as there is not enough data for the key length")
 
         field_order = view[8 : 8 + key_length].tobytes()
         view = view[8 + key_length :]
@@ -389,6 +391,8 @@ class ECDHKey:
             raise ValueError(f"Failed to unpack {cls.__name__} with unknown curve 0x{curve_id:08X}")
 
         length = int.from_bytes(view[4:8], byteorder="little")
+        if len(view) < 8 + (length * 2):
+            raise ValueError(f"Failed to unpack {cls.__name__} as there is not enough data for the key length")
 
         x = view[8 : 8 + length].tobytes()
         view = view[8 + length :]
